@@ -2,8 +2,10 @@ package props
 
 import (
 	"fmt"
+	"go/constant"
 	"go/types"
 	"sort"
+	"strconv"
 	"strings"
 
 	"golang.org/x/tools/go/ssa"
@@ -15,12 +17,12 @@ func init() {
 	register(&Prop{
 		ID: "C08",
 		Explanation: "Structural necessary conditions of 'storage transactions are serializable and atomic': " +
-			"(1) sibling contract of every physical.Transaction implementation (family discovered through types.Implements): leaf implementations (inmem, raft, postgresql) serve no operation after the finished flag is set, refuse writes when read-only, set the finished flag on every exit of Commit/Rollback and run under the transaction mutex; wrapper implementations report success of Commit/Rollback/Put/Delete only across the success edge of the wrapped transaction's same-named method and consult the wrapped transaction for reads; " +
-			"(2) the raft transaction records every key it read (or first overwrote) and every listing it made before using them, and Commit ships all recorded reads, lists and writes between a beginTxOp carrying the start index and a commitTxOp; the start index is read before the bolt snapshot is opened; " +
+			"(1) sibling contract of every physical.Transaction implementation (family discovered through types.Implements): leaf implementations (inmem, raft, postgresql) serve no operation after the finished flag is set, refuse writes when read-only, set the finished flag on every exit of Commit/Rollback and run under the transaction mutex; wrapper implementations report success of Commit/Rollback/Put/Delete only across the success edge of the wrapped transaction's same-named method and consult the wrapped transaction for reads (that they hand on the caller's key/prefix, transformed only by the layer's own key function, is decided for every storage-shaped type including the transaction wrappers by C13.2 and not repeated here); the PostgreSQL transaction is opened at an sql isolation level of at least LevelRepeatableRead with the caller's read-only flag; " +
+			"(2) the raft transaction records every key it read (or first overwrote) and every listing it made before using them, and Commit ships all recorded reads, lists and writes between a beginTxOp carrying the start index and a commitTxOp, no iteration over the recorded sets going on to the next element without appending its entry to the log handed to applyLog (an update only when its op type is neither put nor delete); the start index is read before the bolt snapshot is opened; " +
 			"(3) the state machine verifies every read/list of a transaction before its first write (shared with C09.5); (4) the in-memory backend compares before each write of a commit and restores its tree on any failure, under the parent lock; " +
-			"(5) the cache layer drops every key a transaction modified from the shared cache only after the inner commit succeeded and never on rollback; " +
+			"(5) the cache layer drops every key a transaction modified from the shared cache only after the inner commit succeeded and never on rollback; the transaction's reference to the shared cache (field parent) is set by the two constructors and read by Commit alone, and Commit never inserts into a cache; " +
 			"(6) the fast-path predicates (shared with C09.4); (7) every bound that lets the fast-path record forget writes originates from the state machine's index or a transaction start index.",
-		NotDecided: "serializability over interleavings (schedules); soundness of the raft fast path as index arithmetic beyond the stated predicates; PostgreSQL's isolation level (delegated to the database); the gRPC storage client/server pair (out-of-process).",
+		NotDecided: "serializability over interleavings (schedules); soundness of the raft fast path as index arithmetic beyond the stated predicates; what PostgreSQL implements under the isolation level requested (delegated to the database; only the level requested is checked); the gRPC storage client/server pair (out-of-process).",
 		Run:        runC08,
 	})
 }
@@ -204,6 +206,49 @@ func runC08(c *eng.Ctx, thorough bool) {
 		}
 	}
 
+	// the isolation level requested from the database: at least REPEATABLE READ
+	// (one snapshot for all reads of the transaction, write-write conflicts
+	// abort), and the read-only flag handed on is the caller's
+	if f := c.Fn("postgresql.(*PostgreSQLBackend).newTransaction"); f != nil {
+		c.Clause("R12", "C08.1")
+		min, okc := c.P.ImportedConst("postgresql", "database/sql", "LevelRepeatableRead")
+		begins := eng.Calls(f, `database/sql\.(DB|Conn)\)\.BeginTx$`)
+		if !okc {
+			c.Unresolved("database/sql.LevelRepeatableRead")
+		} else if c.Floor(f, "sql BeginTx", len(begins), 1) {
+			for _, bt := range begins {
+				a := bt.Common().Args
+				opts := a[len(a)-1]
+				site := "isolation level requested"
+				iso := eng.StructLitField(opts, "Isolation")
+				if len(iso) == 0 {
+					c.Violation(f, site, bt.Pos(), "the transaction options carry no isolation level (nil options or field unset): the database default is READ COMMITTED", nil)
+				}
+				for _, v := range iso {
+					cst, isC := v.(*ssa.Const)
+					lvl, lok := int64(0), false
+					if isC && cst.Value != nil {
+						lvl, lok = constant.Int64Val(constant.ToInt(cst.Value))
+					}
+					want, _ := strconv.ParseInt(min, 10, 64)
+					switch {
+					case !lok:
+						c.Undecided(f, site, bt.Pos(), "isolation level is not a constant: "+eng.ExprDeep(v))
+					case lvl < want:
+						c.Violation(f, site, bt.Pos(), fmt.Sprintf("storage transactions are opened at sql isolation level %d, below LevelRepeatableRead (%d): reads of one transaction can observe different committed states and concurrent read-modify-writes both commit", lvl, want), nil)
+					default:
+						c.OK(f, site, bt.Pos(), fmt.Sprintf("sql isolation level %d >= LevelRepeatableRead (%d)", lvl, want))
+					}
+				}
+				c.Clause("R5", "C08.1")
+				for _, v := range eng.StructLitField(opts, "ReadOnly") {
+					c.Prov(f, "read-only flag handed to the database", bt, v, `^param:readOnly$`)
+				}
+				c.Clause("R12", "C08.1")
+			}
+		}
+	}
+
 	// ---------- wrapper contract
 	type wrap struct {
 		typ   string
@@ -374,6 +419,60 @@ func runC08(c *eng.Ctx, thorough bool) {
 					rng = append(rng, in)
 				}
 				c.Before(f, "range over "+set, rng, "applyLog", apply)
+			}
+			// every element ranged over is shipped: an iteration of any of the
+			// loops ends only by appending an entry to the log handed to applyLog,
+			// or by having run a nested range to its end (whose iterations are held
+			// to the same rule); an update may be skipped only when its op type is
+			// neither put nor delete.
+			c.Clause("R2", "C08.2")
+			logv := apply[0].(ssa.CallInstruction).Common().Args[2]
+			var ship []ssa.Instruction
+			for _, in := range eng.Instrs(f, func(in ssa.Instruction) bool {
+				st, ok := in.(*ssa.Store)
+				if !ok {
+					return false
+				}
+				fa, ok := st.Addr.(*ssa.FieldAddr)
+				if !ok || fa.X != logv {
+					return false
+				}
+				if fv := eng.FieldVar(fa); fv == nil || fv.Name() != "Operations" {
+					return false
+				}
+				cl, ok := st.Val.(*ssa.Call)
+				if !ok {
+					return false
+				}
+				bi, ok := cl.Call.Value.(*ssa.Builtin)
+				return ok && bi.Name() == "append"
+			}) {
+				ship = append(ship, in)
+			}
+			loops := c07Loops(f)
+			if c.Floor(f, "appends to the operations of the log handed to applyLog", len(ship), 5) && c.Floor(f, "loops over the recorded reads, lists and updates", len(loops), 5) {
+				var exits []eng.Edge
+				for _, l := range loops {
+					exits = append(exits, l.Exit)
+				}
+				putV, _ := c.P.ConstValue("raft.putOp")
+				delV, _ := c.P.ConstValue("raft.deleteOp")
+				for _, l := range loops {
+					site := "every iteration ships its entry{" + eng.Normalize(l.If.Cond).Base + "}"
+					again := func(in ssa.Instruction) bool { return in == ssa.Instruction(l.If) }
+					var hit *eng.Hit
+					for _, k := range []string{putV, delV} {
+						skip := eng.CondEdges(f, `\.OpType == `+reQuote(k)+`$`, false)
+						if h := eng.Reach(eng.Query{Fn: f, StartEdges: []eng.Edge{l.Body}, Blocked: append(append([]eng.Edge{}, exits...), skip...), Barriers: ship, Target: again}); h != nil {
+							hit = h
+						}
+					}
+					if hit != nil {
+						c.Violation(f, site, l.If.Pos(), "an iteration over the recorded reads/lists/updates can go on to the next element without appending its entry to the log: the read is not verified (or the write not applied) by the state machine", hit.Witness)
+					} else {
+						c.OK(f, site, l.If.Pos(), "no iteration reaches the next one without appending to log.Operations")
+					}
+				}
 			}
 			c.Clause("R5", "C08.2")
 			for _, bv := range eng.Calls(f, `raft\.createBeginTxOpValue$`) {
@@ -612,6 +711,31 @@ func runC08(c *eng.Ctx, thorough bool) {
 					c.OK(f, "every modified key invalidated", rng[0].Pos(), "each iteration invalidates its key before the next")
 				}
 			}
+		}
+	}
+	// the shared (parent) cache is reachable from a transaction only through
+	// its parent field: the field is set by the two constructors and read by
+	// Commit alone, and Commit never inserts into a cache
+	c.Clause("R1", "C08.5")
+	if fv := c.P.Field("physical.cacheTransaction.parent"); fv != nil {
+		c.CallerTable("field cacheTransaction.parent (the shared cache)", c.P.FieldReads(fv, nil), map[string]string{
+			"physical.(*transactionalCache).BeginTx":         "constructor: records the cache the transaction was started from",
+			"physical.(*transactionalCache).BeginReadOnlyTx": "constructor: records the cache the transaction was started from",
+			"physical.(*cacheTransaction).Commit":            "drops the modified keys from the shared cache after the inner commit succeeded (checked above)",
+		}, 3)
+	} else {
+		c.Unresolved("physical.cacheTransaction.parent")
+	}
+	if f := c.P.Func("physical.(*cacheTransaction).Commit"); f != nil {
+		c.Clause("R6", "C08.5")
+		n := len(eng.Calls(f, `TwoQueueCache.*\.Add$`))
+		for _, clo := range eng.Closures(f) {
+			n += len(eng.Calls(clo, `TwoQueueCache.*\.Add$`))
+		}
+		if n > 0 {
+			c.Violation(f, "commit only drops shared cache entries", f.Pos(), "Commit inserts into a cache: a value written inside the transaction would become visible to other readers without a read from storage", nil)
+		} else {
+			c.OK(f, "commit only drops shared cache entries", f.Pos(), "no cache insertion in Commit")
 		}
 	}
 	if f := c.Fn("physical.(*cacheTransaction).Rollback"); f != nil {
